@@ -25,7 +25,7 @@ Lemma wrap_narrow_cursor :
   0 <= cyr < len lines -> 0 <= cxc < len (nth (Z.to_nat cyr) lines []) ->
   let Hfn l := height_for_line sw haspfx pfx (nth (Z.to_nat l) lines []) l width None in
   let tbhn s := height_for_line sw haspfx pfx (nth (Z.to_nat cyr) lines []) cyr width (Some s) in
-  let s' := scroll_wrap fixed allow Hfn tbhn width height top bottom cyr cxc (len lines) st in
+  let s' := scroll_wrap_gen fixed allow Hfn tbhn width height top bottom cyr cxc (len lines) st in
   let o := copy_body sw dw disp true haspfx pfx width height xpos ypos lines s' in
   (fixed = true \/ Hfn cyr <= height - top \/ cxc mod (width - p) <> 0 \/ cxc / (width - p) < height) ->
   let y := sumH Hfn (vs s') (Z.to_nat cyr) - vs2 s' + cxc / (width - p) in
@@ -80,4 +80,30 @@ Proof.
   pose proof (registered_is_right sw dw disp false haspfx pfx width height xpos ypos lines s' Hdw Hfit Hv) as HR.
   cbv zeta in HR. destruct (HR (cyr, cxc) (y + ypos, x + xpos) Hget) as (_ & c & Hc & Hcell).
   exists c. split; [now apply char_at_nth | exact Hcell].
+Qed.
+
+(* the code as it is now (slice_stop = cursor column + 1): no proviso *)
+Lemma wrap_narrow_cursor_full :
+  forall sw dw disp haspfx pfx width height xpos ypos p top bottom lines cyr cxc st allow,
+  (forall c, sw c = 1) -> (forall c, dw c = 1) ->
+  (haspfx = true -> forall l k, len (pfx l k) = p) -> (haspfx = false -> p = 0) ->
+  0 <= p -> 1 <= width - p -> 1 <= height -> 0 <= top -> 0 <= bottom -> 0 <= vs st ->
+  (forall ln, In ln lines -> 1 <= len ln) ->
+  0 <= cyr < len lines -> 0 <= cxc < len (nth (Z.to_nat cyr) lines []) ->
+  let Hfn l := height_for_line sw haspfx pfx (nth (Z.to_nat l) lines []) l width None in
+  let tbhn s := height_for_line sw haspfx pfx (nth (Z.to_nat cyr) lines []) cyr width (Some s) in
+  let s' := scroll_wrap allow Hfn tbhn width height top bottom cyr cxc (len lines) st in
+  let o := copy_body sw dw disp true haspfx pfx width height xpos ypos lines s' in
+  let y := sumH Hfn (vs s') (Z.to_nat cyr) - vs2 s' + cxc / (width - p) in
+  let x := p + cxc mod (width - p) in
+  0 <= y < height /\ 0 <= x < width /\
+  alist_get (cr2 o) (cyr, cxc) = Some (y + ypos, x + xpos) /\
+  exists c, nth_error (nth (Z.to_nat cyr) lines []) (Z.to_nat cxc) = Some c /\
+            cstr (scr_get (cscr o) (y + ypos) (x + xpos)) = disp c.
+Proof.
+  intros sw dw disp haspfx pfx width height xpos ypos p top bottom lines cyr cxc st allow
+         Hsw Hdw Hp Hnp Hp0 Hw Hh Htop Hbottom Hvs Hlines Hcy Hcx.
+  apply (wrap_narrow_cursor sw dw disp haspfx pfx width height xpos ypos p top bottom lines cyr cxc st
+           true allow); try assumption.
+  now left.
 Qed.
